@@ -146,7 +146,7 @@ META = {
              "and state-based replication: a replica that saw all broadcasts or ANY log compaction of them (Compacts relation) holds the sender's "
              "state (snapshot_replication, compaction_invisible). Tied to the Go tracker by differential runs with two real replica trackers fed the real JSON payloads.",
         note="Trusted: Lean kernel, model transcription, JSON codec treated as identity (exercised, not proved), recording FBContext. "
-             "Replication theorems cover local-operation histories; interleaved receives are covered by correspondence + Spec oracle.",
+             "Replication is proved for arbitrary histories (snapshot_replication_general) for every partition the sender wrote last.",
     ),
     "C06": dict(
         text="Proof: the lag-cap arithmetic, trimming and error-abort rules of assignPartitions are proved in Lean for all int64-range inputs "
